@@ -804,6 +804,9 @@ unsafe impl Allocator for PageAlignedAllocator {
     unsafe fn deallocate(&self, ptr: ptr::NonNull<u8>, layout: Layout) {
         let pagesize = *PAGESIZE;
 
+        // wipe the whole block, spare capacity included, before it is released
+        std::slice::from_raw_parts_mut(ptr.as_ptr(), layout.size()).zeroize();
+
         #[cfg(dryoc_verif)]
         verif::on_release(ptr.as_ptr() as usize, layout.size());
 
